@@ -10,6 +10,11 @@ Decided (structural):
  R4 K2  in the retain predicate an existing entry is dropped (Ok(false)) only on the true edge of
         is_ancestor(old, new); the new command is suppressed (add_command = false) only on
         `old.id == new.id` or the true edge of is_ancestor(new, old).
+ R5 K3  inside add_command the only operations applied to a mutable borrow of `heads` are
+        `retain` (whose predicate R4 checks) and `push` (which cannot remove): no other call that
+        could remove or overwrite an entry (iter_mut, index_mut, swap_remove, pop, clear, ...) and no
+        store through the borrow. A further mutator cannot be shown to spare non-ancestors, so the
+        rule fails closed on it.
 Not decided: the antichain invariant over all sequences (value-level)."""
 from rules.core import pat
 from rules.core.facts import Operand, Place, PASS_THROUGH
@@ -82,6 +87,25 @@ def run(F, rep, tier):
             ok = "call:get_location" in seg and "field:segment" in seg and "argname:addr" in idd and "field:id" in idd and "argname:addr" in mc and "field:max_cut" in mc
         rep.check(ok, "add_command|entry-provenance", "K6 provenance",
                   "new = {id: addr.id, segment: <location from get_location>.segment, max_cut: addr.max_cut}", site=f.site())
+    # R5 mutators of heads inside add_command
+    muts = []
+    stores = []
+    for fn in [f] + list(F.closures_of(f)):
+        for st in fn.stmts():
+            if st.rv_kind() == "ref" and st.rv[1] == "mut":
+                pl = Place(st.rv[2])
+                if "heads" in pl.fields():
+                    al = fn.forward_aliases(st.place.local)
+                    for c in fn.calls:
+                        if any(a.place is not None and a.place.local in al for a in c.args):
+                            muts.append((c.name, c.site()))
+                    for s2 in fn.stmts():
+                        if s2.place is not None and s2.place.proj and s2.place.local in al and s2.place.proj[0][0] == "d":
+                            stores.append("%s:%d" % (fn.file, s2.line))
+    bad = sorted({"%s at %s" % m for m in muts if m[0] not in ("retain", "push")} | {"store at %s" % x for x in stores})
+    rep.check(not bad and {m[0] for m in muts} >= {"retain", "push"}, "add_command|heads-mutators", "K3 who-may-call",
+              "the mutable borrows of heads in add_command feed only retain and push (%d sites)" % len(muts),
+              "PeerCache::add_command mutates heads through an operation other than retain/push, which can remove or overwrite an entry that is not an ancestor of the recorded command: %s" % ", ".join(bad), f.site())
     # R4 closure
     cls = [c for c in F.closures_of(f) if any(x.name == "is_ancestor" for x in c.calls)]
     cl = pat.one(rep, cls, "retain predicate closure", f)
